@@ -346,3 +346,9 @@ def protocol_file(rng):
   script = gen_script(rng, knobs)
   text = transmit(script, chan, knobs["start"], df)[0]
   return text.encode("utf-8")
+
+
+def scc_mixed(rng):
+  """half the SCC files follow the caption protocols, half are the odd word sequences of producers/text.py"""
+  from sim.producers import text as ptext
+  return protocol_file(rng) if rng.random() < 0.5 else ptext.scc_simple(rng)
